@@ -684,7 +684,11 @@ type wrapped struct {
 
 // wrap places the block sequence `list` (lines at column 0, e.g. "- record: a") under 0..4 wrapper levels of
 // mappings (keys != groups) and sequences, with optional sibling keys and extra documents.
-func (g *docGen) wrap(list []string, levels int) wrapped {
+func (g *docGen) wrap(list []string, levels int) wrapped { return g.wrapOpts(list, levels, true) }
+
+// wrapOpts: allowDocs=false never adds extra documents (for texts that are embedded into a scalar afterwards:
+// yaml.Unmarshal reads only the first document of a value).
+func (g *docGen) wrapOpts(list []string, levels int, allowDocs bool) wrapped {
 	body := list
 	col := 0
 	var desc []string
@@ -757,11 +761,11 @@ func (g *docGen) wrap(list []string, levels int) wrapped {
 	}
 	// extra documents
 	var pre, post []string
-	if g.chance(0.25) {
+	if allowDocs && g.chance(0.25) {
 		pre = append(pre, pick(g.r, []string{"a: b", "- 1\n- 2", "# just a comment\nfoo: [1, 2]"}), "---")
 		desc = append(desc, "doc-before")
 	}
-	if g.chance(0.25) {
+	if allowDocs && g.chance(0.25) {
 		post = append(post, "---", pick(g.r, []string{"c: d", "- x", "~"}))
 		desc = append(desc, "doc-after")
 	}
@@ -775,4 +779,86 @@ func (g *docGen) wrap(list []string, levels int) wrapped {
 		all = append(all, strings.Split(p, "\n")...)
 	}
 	return wrapped{Text: strings.Join(all, "\n") + "\n", LineShift: lineShift, ColShift: col, Desc: strings.Join(desc, ",")}
+}
+
+// embedded places a whole YAML text inside a scalar of an outer document (YAML in YAML, e.g. a ConfigMap).
+// Literal block scalars keep one source line per value line: relaxed mode descends into them and reports the rules
+// displaced by (LineShift, ColShift).  Every other scalar style does not preserve lines: since commit 147313f
+// relaxed mode must not look inside (Found=false: no rule may be reported).
+type embedded struct {
+	Text      string
+	LineShift int
+	ColShift  int
+	Value     string // the value yaml.v3 gives the scalar (literal styles only): the reference document
+	Literal   bool
+	Descends  bool // literal AND the value has more than one line break (parser.go parseNode: strings.Count(node.Value, "\n") > 1)
+	Desc      string
+}
+
+func (g *docGen) embed(text string) embedded {
+	lines := strings.Split(strings.TrimRight(text, "\n"), "\n")
+	var pre []string
+	if g.chance(0.4) {
+		pre = append(pre, pick(g.r, []string{"apiVersion: v1", "kind: ConfigMap", "metadata:\n  name: rules"}))
+	}
+	var head []string
+	for _, p := range pre {
+		head = append(head, strings.Split(p, "\n")...)
+	}
+	tail := []string{}
+	if g.chance(0.4) {
+		tail = append(tail, pick(g.r, []string{"other: 1", "zz:\n  - a", "more: |\n  just\n  text\n  here"}))
+	}
+	finish := func(body []string) string {
+		all := append(append(append([]string{}, head...), body...), tail...)
+		var flat []string
+		for _, l := range all {
+			flat = append(flat, strings.Split(l, "\n")...)
+		}
+		return strings.Join(flat, "\n") + "\n"
+	}
+	switch g.r.Intn(8) {
+	case 0, 1, 2, 3, 4: // literal block scalar under data/<key>, different chomping indicators and indentation
+		ind := pick(g.r, []int{2, 4, 6})
+		hdr := pick(g.r, []string{"|", "|-", "|+"})
+		key := pick(g.r, []string{"rules.yaml", "alerts", "prometheus.rules"})
+		body := []string{"data:", "  " + key + ": " + hdr}
+		body = append(body, indentLines(lines, 2+ind)...)
+		value := strings.Join(lines, "\n") + "\n"
+		if hdr == "|+" && len(tail) == 0 {
+			body = append(body, "")
+			value += "\n"
+		}
+		g.note("embedded:literal" + hdr)
+		breaks := len(lines) // line breaks in the value
+		if hdr == "|-" {
+			breaks--
+			value = strings.TrimRight(value, "\n")
+		}
+		if breaks <= 1 {
+			g.note("embedded:literal-too-short-to-be-descended")
+		}
+		return embedded{Text: finish(body), LineShift: len(head) + 2, ColShift: 2 + ind, Value: value, Literal: true, Descends: breaks > 1, Desc: "literal" + hdr}
+	case 5: // double-quoted with \n escapes: one source line
+		esc := strings.NewReplacer("\\", "\\\\", "\"", "\\\"", "\n", "\\n", "\t", "\\t").Replace(text)
+		g.note("embedded:double-quoted")
+		return embedded{Text: finish([]string{"data:", "  rules.yaml: \"" + esc + "\""}), Desc: "double-quoted"}
+	case 6: // folded block scalar, blank line between the lines keeps the line breaks in the value
+		var body []string
+		body = append(body, "data: >")
+		for _, l := range lines {
+			body = append(body, "  "+l, "")
+		}
+		g.note("embedded:folded")
+		return embedded{Text: finish(body), Desc: "folded"}
+	default: // single-quoted multi-line flow scalar: blank lines keep the breaks
+		var body []string
+		body = append(body, "data:", "  rules.yaml: '"+strings.ReplaceAll(lines[0], "'", "''"))
+		for _, l := range lines[1:] {
+			body = append(body, "", "    "+strings.ReplaceAll(l, "'", "''"))
+		}
+		body[len(body)-1] += "'"
+		g.note("embedded:single-quoted-multiline")
+		return embedded{Text: finish(body), Desc: "single-quoted"}
+	}
 }
